@@ -164,6 +164,8 @@ def run_case(arg):
             if e.op in ("stat", "open", "read", "opendir", "readdir", "fiemap", "readlink") and (e.op != "open" or e.ret >= 0):
                 counts[(e.p1, e.op)] = counts.get((e.p1, e.op), 0) + 1
         root_abs = fse(os.path.join(troot, "r0"))
+        main_pid = ev[0].pid if ev else None
+        child_opens = {e.p1 for e in ev if e.op == "open" and e.ret >= 0 and e.pid != main_pid}
         # classify every open of a path: an open followed by a FIEMAP ioctl is the extent query (an optimisation
         # whose failure must change nothing), the others are opens for hashing
         open_kinds = {}
@@ -183,8 +185,12 @@ def run_case(arg):
             for nth in range(1, n + 1):
                 for en in ERRNOS:
                     if op == "open" and cfg.get("transform"):
-                        if nth == 1:
-                            specs.append((p, "open-child", 1, en, None))
+                        # counters are per process: the n-th open of p fails in fclones (only its extent query opens
+                        # files here) and in the transform child alike. Which path of a hard-linked file the child is
+                        # given is not determined, so those are left out.
+                        linked = p in files and sum(1 for q in files.values() if q["id"] == files[p]["id"]) > 1
+                        if nth == 1 and not linked:
+                            specs.append((p, "open-child" if p in child_opens else "open-fiemap", 1, en, None))
                     elif op == "open":
                         kind = (open_kinds.get(p) or ["hash"] * n)[nth - 1]
                         specs.append((p, "open-" + kind, nth, en, None))
